@@ -583,19 +583,19 @@ Proof.
   assert (Triv : (forall c : list lit, In c (snd (fst (al, @nil (list lit), @None (list lit)))) -> clause_valid s c) /\
                  (forall c : list lit, snd (al, @nil (list lit), @None (list lit)) = Some c -> clause_valid s c)).
   { simpl. split; [intros c [] | discriminate]. }
-  assert (RowEq : forall al' rho, model s al' rho -> rho x == sumq rho (lterms l)).
-  { intros al' rho M. pose proof (model_rows s al' rho W M x l Hin) as R. unfold evalq in R. rewrite (wf_const0 s W x l Hin) in R. lra. }
+  assert (RowEq : forall al' rho, model s al' rho -> rho x == lconst l + sumq rho (lterms l)).
+  { intros al' rho M. exact (model_rows s al' rho W M x l Hin). }
   destruct (coef v (lterms l)) as [cv |]; [| exact Triv]. destruct (qpos cv).
-  - destruct (row_bound s true (lterms l) (0, 0) []) as [[lo rs] |] eqn:RB; [| exact Triv].
+  - destruct (row_bound s true (lterms l) (qd_of_q (lconst l)) []) as [[lo rs] |] eqn:RB; [| exact Triv].
     destruct (ge_lbopt lo (lbv s x)); [| exact Triv].
     apply (row_watchers_valid s x true lo rs al); auto. { intros a Ha. apply watchers_of_spec. exact Ha. }
     intros al' rho M Hr. unfold sat_lower. eapply ev_mono; [| exact (row_bound_lower_sound s al' rho _ _ _ _ _ W M RB Hr)].
-    intros d _ K. cbv beta in *. rewrite (RowEq al' rho M). unfold qd_at in K at 2. simpl in K. lra.
-  - destruct (row_bound s false (lterms l) (0, 0) []) as [[hi rs] |] eqn:RB; [| exact Triv].
+    intros d _ K. cbv beta in *. rewrite (RowEq al' rho M). rewrite qd_at_of_q in K. exact K.
+  - destruct (row_bound s false (lterms l) (qd_of_q (lconst l)) []) as [[hi rs] |] eqn:RB; [| exact Triv].
     destruct (le_ubopt hi (ubv s x)); [| exact Triv].
     apply (row_watchers_valid s x false hi rs al); auto. { intros a Ha. apply watchers_of_spec. exact Ha. }
     intros al' rho M Hr. unfold sat_upper. eapply ev_mono; [| exact (row_bound_upper_sound s al' rho _ _ _ _ _ W M RB Hr)].
-    intros d _ K. cbv beta in *. rewrite (RowEq al' rho M). unfold qd_at in K at 1. simpl in K. lra.
+    intros d _ K. cbv beta in *. rewrite (RowEq al' rho M). rewrite qd_at_of_q in K. exact K.
 Qed.
 Lemma row_propagate_ub_valid s al x l v :
   wf s -> In (x, l) (tableau s) ->
@@ -606,82 +606,133 @@ Proof.
   assert (Triv : (forall c : list lit, In c (snd (fst (al, @nil (list lit), @None (list lit)))) -> clause_valid s c) /\
                  (forall c : list lit, snd (al, @nil (list lit), @None (list lit)) = Some c -> clause_valid s c)).
   { simpl. split; [intros c [] | discriminate]. }
-  assert (RowEq : forall al' rho, model s al' rho -> rho x == sumq rho (lterms l)).
-  { intros al' rho M. pose proof (model_rows s al' rho W M x l Hin) as R. unfold evalq in R. rewrite (wf_const0 s W x l Hin) in R. lra. }
+  assert (RowEq : forall al' rho, model s al' rho -> rho x == lconst l + sumq rho (lterms l)).
+  { intros al' rho M. exact (model_rows s al' rho W M x l Hin). }
   destruct (coef v (lterms l)) as [cv |]; [| exact Triv]. destruct (qpos cv).
-  - destruct (row_bound_ub_pos s v (lterms l) (0, 0) []) as [[hi rs] |] eqn:RB; [| exact Triv].
+  - destruct (row_bound_ub_pos s v (lterms l) (qd_of_q (lconst l)) []) as [[hi rs] |] eqn:RB; [| exact Triv].
     destruct (le_ubopt hi (ubv s x)); [| exact Triv].
     apply (row_watchers_valid s x false hi rs al); auto. { intros a Ha. apply watchers_of_spec. exact Ha. }
     intros al' rho M Hr. unfold sat_upper. eapply ev_mono; [| exact (row_bound_ub_pos_sound s al' rho _ _ _ _ _ _ W M RB Hr)].
-    intros d _ K. cbv beta in *. rewrite (RowEq al' rho M). unfold qd_at in K at 1. simpl in K. lra.
-  - destruct (row_bound s true (lterms l) (0, 0) []) as [[lo rs] |] eqn:RB; [| exact Triv].
+    intros d _ K. cbv beta in *. rewrite (RowEq al' rho M). rewrite qd_at_of_q in K. exact K.
+  - destruct (row_bound s true (lterms l) (qd_of_q (lconst l)) []) as [[lo rs] |] eqn:RB; [| exact Triv].
     destruct (ge_lbopt lo (lbv s x)); [| exact Triv].
     apply (row_watchers_valid s x true lo rs al); auto. { intros a Ha. apply watchers_of_spec. exact Ha. }
     intros al' rho M Hr. unfold sat_lower. eapply ev_mono; [| exact (row_bound_lower_sound s al' rho _ _ _ _ _ W M RB Hr)].
-    intros d _ K. cbv beta in *. rewrite (RowEq al' rho M). unfold qd_at in K at 2. simpl in K. lra.
+    intros d _ K. cbv beta in *. rewrite (RowEq al' rho M). rewrite qd_at_of_q in K. exact K.
 Qed.
 
 (* assert_lower / assert_upper / propagate: everything they emit is valid in the state they return *)
 Definition emits_valid (res : state * aresult) : Prop :=
   (forall c, In c (r_lemmas (snd res)) -> clause_valid (fst res) c) /\ (r_ok (snd res) = false -> clause_valid (fst res) (r_cnfl (snd res))).
 
-Lemma assert_lower_sound s al x_i val p :
+(* conflicts are stated relative to the asserted atom: valid in every model in which "p true" implies the atom
+   (for a theory literal p that is always so; for set_lb / set_ub with the TRUE literal it means: in every model of the
+   requested bound) *)
+Definition emits_valid_given (p : lit) (a : atom) (res : state * aresult) : Prop :=
+  (forall c, In c (r_lemmas (snd res)) -> clause_valid (fst res) c) /\
+  (r_ok (snd res) = false -> forall al rho, model (fst res) al rho -> (lit_holds al p = true -> sat_atom rho a) ->
+                             existsb (lit_holds al) (r_cnfl (snd res)) = true).
+
+Lemma assert_lower_sound_gen s al x_i val p :
   wf s -> (x_i < nvars s)%nat -> 0 <= snd val ->
-  (exists a sg, In a (asrts s) /\ p = (a_b a, sg) /\ asrt_atom a sg = (x_i, Lower, val)) ->
-  emits_valid (assert_lower s al x_i val p).
+  ((exists a sg, In a (asrts s) /\ p = (a_b a, sg) /\ asrt_atom a sg = (x_i, Lower, val)) \/ (p = TRUE_lit /\ layers s = [])) ->
+  emits_valid_given p (x_i, Lower, val) (assert_lower s al x_i val p).
 Proof.
   intros W Hx Hs HA. pose proof (wf_assert_lower s al x_i val p W Hx Hs HA) as W'. rewrite assert_lower_fst in W'.
-  unfold emits_valid, assert_lower.
+  unfold emits_valid_given, assert_lower.
   destruct (le_lb val (lbv s x_i)) eqn:E1. { simpl. split; [intros c [] | discriminate]. }
   destruct (gt_ub val (ubv s x_i)) eqn:E2.
-  { simpl. split; [intros c [] |]. intros _. destruct HA as [a [sg [Ha [-> Hat]]]].
+  { simpl. split; [intros c [] |]. intros _ al' rho M Hp.
     unfold gt_ub in E2. destruct (ubv s x_i) as [u |] eqn:Ub; [| discriminate]. apply qd_ltb_true in E2.
-    apply clause_valid_cons. intros al' rho M Hr. rewrite lit_holds_neg. apply negb_true_iff.
-    destruct (lit_holds al' (a_b a, sg)) eqn:Hb; auto. exfalso.
-    pose proof (model_lit_atom s al' rho a sg W M Ha Hb) as At. rewrite Hat in At. simpl in At.
-    pose proof (reason_holds s al' rho x_i Upper u W M Ub (neg_false_holds _ _ (Hr _ (or_introl eq_refl)))) as Hi. simpl in Hi.
-    eapply sat_cross; eauto. }
+    rewrite !lit_holds_neg. destruct (lit_holds al' p) eqn:Hb; simpl; auto.
+    destruct (lit_holds al' (ubr s x_i)) eqn:Hr; simpl; auto. exfalso.
+    pose proof (Hp eq_refl) as At. simpl in At.
+    pose proof (reason_holds s al' rho x_i Upper u W M Ub Hr) as Hi. simpl in Hi. eapply sat_cross; eauto. }
   match goal with |- context [unate_loop (fun al a => asrt_propagate_lb ?st al a x_i)] => set (s2 := st) in * end.
   change (wf s2) in W'.
   pose proof (unate_loop_all (clause_valid s2) (fun al a => asrt_propagate_lb s2 al a x_i) al (watchers_of s2 x_i)) as U.
   destruct (unate_loop (fun al a => asrt_propagate_lb s2 al a x_i) al (watchers_of s2 x_i)) as [[al1 ls1] c1]. simpl in U.
   destruct U as [U1 U2].
   { intros al' a c Hin Hc. destruct (watchers_of_spec s2 x_i a Hin) as [K1 K2]. apply (unate_lb_valid s2 al' a x_i c W' K1 K2 Hc). }
-  destruct c1 as [c1 |]. { simpl. split; auto. }
+  destruct c1 as [c1 |]. { simpl. split; auto. intros _ al' rho M _. apply (U2 c1 eq_refl al' rho M). }
   pose proof (rows_loop_all (clause_valid s2) (fun al x l => row_propagate_lb s2 al x l x_i) al1 (watching (tableau s2) x_i)) as R.
   destruct (rows_loop (fun al x l => row_propagate_lb s2 al x l x_i) al1 (watching (tableau s2) x_i)) as [[al2 ls2] c2]. simpl in R.
   destruct R as [R1 R2].
   { intros al' x l Hin. apply row_propagate_lb_valid; [exact W' | eapply watching_In; eauto]. }
-  destruct c2 as [c2 |]; simpl; (split; [intros c Hc; apply in_app_or in Hc; destruct Hc; auto |]); auto. discriminate.
+  destruct c2 as [c2 |]; simpl; (split; [intros c Hc; apply in_app_or in Hc; destruct Hc; auto |]).
+  - intros _ al' rho M _. apply (R2 c2 eq_refl al' rho M).
+  - discriminate.
 Qed.
-Lemma assert_upper_sound s al x_i val p :
+Lemma assert_upper_sound_gen s al x_i val p :
   wf s -> (x_i < nvars s)%nat -> snd val <= 0 ->
-  (exists a sg, In a (asrts s) /\ p = (a_b a, sg) /\ asrt_atom a sg = (x_i, Upper, val)) ->
-  emits_valid (assert_upper s al x_i val p).
+  ((exists a sg, In a (asrts s) /\ p = (a_b a, sg) /\ asrt_atom a sg = (x_i, Upper, val)) \/ (p = TRUE_lit /\ layers s = [])) ->
+  emits_valid_given p (x_i, Upper, val) (assert_upper s al x_i val p).
 Proof.
   intros W Hx Hs HA. pose proof (wf_assert_upper s al x_i val p W Hx Hs HA) as W'. rewrite assert_upper_fst in W'.
-  unfold emits_valid, assert_upper.
+  unfold emits_valid_given, assert_upper.
   destruct (ge_ub val (ubv s x_i)) eqn:E1. { simpl. split; [intros c [] | discriminate]. }
   destruct (lt_lb val (lbv s x_i)) eqn:E2.
-  { simpl. split; [intros c [] |]. intros _. destruct HA as [a [sg [Ha [-> Hat]]]].
+  { simpl. split; [intros c [] |]. intros _ al' rho M Hp.
     unfold lt_lb in E2. destruct (lbv s x_i) as [lo |] eqn:Lb; [| discriminate]. apply qd_ltb_true in E2.
-    apply clause_valid_cons. intros al' rho M Hr. rewrite lit_holds_neg. apply negb_true_iff.
-    destruct (lit_holds al' (a_b a, sg)) eqn:Hb; auto. exfalso.
-    pose proof (model_lit_atom s al' rho a sg W M Ha Hb) as At. rewrite Hat in At. simpl in At.
-    pose proof (reason_holds s al' rho x_i Lower lo W M Lb (neg_false_holds _ _ (Hr _ (or_introl eq_refl)))) as Lo. simpl in Lo.
-    eapply sat_cross; eauto. }
+    rewrite !lit_holds_neg. destruct (lit_holds al' p) eqn:Hb; simpl; auto.
+    destruct (lit_holds al' (lbr s x_i)) eqn:Hr; simpl; auto. exfalso.
+    pose proof (Hp eq_refl) as At. simpl in At.
+    pose proof (reason_holds s al' rho x_i Lower lo W M Lb Hr) as Lo. simpl in Lo. eapply sat_cross; eauto. }
   match goal with |- context [unate_loop (fun al a => asrt_propagate_ub ?st al a x_i)] => set (s2 := st) in * end.
   change (wf s2) in W'.
   pose proof (unate_loop_all (clause_valid s2) (fun al a => asrt_propagate_ub s2 al a x_i) al (watchers_of s2 x_i)) as U.
   destruct (unate_loop (fun al a => asrt_propagate_ub s2 al a x_i) al (watchers_of s2 x_i)) as [[al1 ls1] c1]. simpl in U.
   destruct U as [U1 U2].
   { intros al' a c Hin Hc. destruct (watchers_of_spec s2 x_i a Hin) as [K1 K2]. apply (unate_ub_valid s2 al' a x_i c W' K1 K2 Hc). }
-  destruct c1 as [c1 |]. { simpl. split; auto. }
+  destruct c1 as [c1 |]. { simpl. split; auto. intros _ al' rho M _. apply (U2 c1 eq_refl al' rho M). }
   pose proof (rows_loop_all (clause_valid s2) (fun al x l => row_propagate_ub s2 al x l x_i) al1 (watching (tableau s2) x_i)) as R.
   destruct (rows_loop (fun al x l => row_propagate_ub s2 al x l x_i) al1 (watching (tableau s2) x_i)) as [[al2 ls2] c2]. simpl in R.
   destruct R as [R1 R2].
   { intros al' x l Hin. apply row_propagate_ub_valid; [exact W' | eapply watching_In; eauto]. }
-  destruct c2 as [c2 |]; simpl; (split; [intros c Hc; apply in_app_or in Hc; destruct Hc; auto |]); auto. discriminate.
+  destruct c2 as [c2 |]; simpl; (split; [intros c Hc; apply in_app_or in Hc; destruct Hc; auto |]).
+  - intros _ al' rho M _. apply (R2 c2 eq_refl al' rho M).
+  - discriminate.
+Qed.
+
+Lemma assert_asrts_unchanged_lower s al x_i val p : asrts (fst (assert_lower s al x_i val p)) = asrts s.
+Proof.
+  rewrite assert_lower_fst. destruct (le_lb val (lbv s x_i)); [reflexivity |]. destruct (gt_ub val (ubv s x_i)); [reflexivity |].
+  unfold al_lower_state. match goal with |- context [if ?c then _ else _] => destruct c end; reflexivity.
+Qed.
+Lemma assert_asrts_unchanged_upper s al x_i val p : asrts (fst (assert_upper s al x_i val p)) = asrts s.
+Proof.
+  rewrite assert_upper_fst. destruct (ge_ub val (ubv s x_i)); [reflexivity |]. destruct (lt_lb val (lbv s x_i)); [reflexivity |].
+  unfold al_upper_state. match goal with |- context [if ?c then _ else _] => destruct c end; reflexivity.
+Qed.
+
+Lemma assert_lower_sound s al x_i val p :
+  wf s -> (x_i < nvars s)%nat -> 0 <= snd val ->
+  (exists a sg, In a (asrts s) /\ p = (a_b a, sg) /\ asrt_atom a sg = (x_i, Lower, val)) ->
+  emits_valid (assert_lower s al x_i val p).
+Proof.
+  intros W Hx Hs HA. destruct (assert_lower_sound_gen s al x_i val p W Hx Hs (or_introl HA)) as [L C].
+  pose proof (wf_assert_lower s al x_i val p W Hx Hs (or_introl HA)) as W'.
+  split; auto. intros F al' rho M. apply (C F al' rho M). destruct HA as [a [sg [Ha [-> Hat]]]]. intro Hb. rewrite <- Hat.
+  apply (model_lit_atom _ al' rho a sg W' M); auto. rewrite assert_asrts_unchanged_lower. exact Ha.
+Qed.
+Lemma assert_upper_sound s al x_i val p :
+  wf s -> (x_i < nvars s)%nat -> snd val <= 0 ->
+  (exists a sg, In a (asrts s) /\ p = (a_b a, sg) /\ asrt_atom a sg = (x_i, Upper, val)) ->
+  emits_valid (assert_upper s al x_i val p).
+Proof.
+  intros W Hx Hs HA. destruct (assert_upper_sound_gen s al x_i val p W Hx Hs (or_introl HA)) as [L C].
+  pose proof (wf_assert_upper s al x_i val p W Hx Hs (or_introl HA)) as W'.
+  split; auto. intros F al' rho M. apply (C F al' rho M). destruct HA as [a [sg [Ha [-> Hat]]]]. intro Hb. rewrite <- Hat.
+  apply (model_lit_atom _ al' rho a sg W' M); auto. rewrite assert_asrts_unchanged_upper. exact Ha.
+Qed.
+
+(* set_lb / set_ub (public, TRUE literal as reason, root level): lemmas valid; a reported conflict is valid in every model
+   of the requested bound *)
+Theorem set_bound_sound s al d x v :
+  wf s -> layers s = [] -> (x < nvars s)%nat -> sign_ok (x, d, v) ->
+  emits_valid_given TRUE_lit (x, d, v) (match d with Lower => assert_lower s al x v TRUE_lit | Upper => assert_upper s al x v TRUE_lit end).
+Proof.
+  intros W R Hx Sg. destruct d; [apply assert_lower_sound_gen | apply assert_upper_sound_gen]; auto.
 Qed.
 
 Theorem propagate_sound s al p : wf s -> lvalue al p = Some true -> emits_valid (propagate s al p).
@@ -764,6 +815,9 @@ Proof.
     + pose proof (assert_lower_stack s al (a_x a) (a_v a) p) as K. destruct (assert_lower s al (a_x a) (a_v a) p). exact K.
     + pose proof (assert_lower_stack s al (a_x a) (qd_red (qd_add (a_v a) qd_eps)) p) as K. destruct (assert_lower s al (a_x a) (qd_red (qd_add (a_v a) qd_eps)) p). exact K.
     + pose proof (assert_upper_stack s al (a_x a) (qd_red (qd_sub (a_v a) qd_eps)) p) as K. destruct (assert_upper s al (a_x a) (qd_red (qd_sub (a_v a) qd_eps)) p). exact K.
+  - destruct d.
+    + pose proof (assert_lower_stack s al x v TRUE_lit) as K. destruct (assert_lower s al x v TRUE_lit). exact K.
+    + pose proof (assert_upper_stack s al x v TRUE_lit) as K. destruct (assert_upper s al x v TRUE_lit). exact K.
   - destruct (check_fields fuel s) as [_ [_ [_ [_ [_ [A [_ B]]]]]]]. destruct (check fuel s). simpl in *. rewrite A, B. auto.
 Qed.
 
